@@ -108,10 +108,12 @@ func cmdCheck(args []string) int {
 	knownLines := map[string]bool{}
 	assumes := 0
 	replays := 0
+	var transcripts []Transcript
 
 	for _, spec := range runs {
 		res := w.Explore(spec, known, *workers, seed)
 		totalPaths += res.Paths
+		transcripts = append(transcripts, res.Transcripts...)
 		totalSteps += res.Steps
 		assumes += res.Assumes
 		for k, v := range res.Queries {
@@ -228,6 +230,46 @@ func cmdCheck(args []string) int {
 			"ssa_steps": res.Steps, "max_steps_on_a_path": res.MaxSteps, "wall_s": round2(res.WallS), "queries": res.Queries, "violating_paths": res.NViol, "known_class_paths": res.NKnown,
 			"mode": map[string]any{"permute_range": spec.Opts.PermuteRange, "sched": spec.Opts.Sched, "max_switches": spec.Opts.MaxSwitches, "races": spec.Opts.Races, "termination": spec.Opts.Termination}})
 	}
+	// --- model vs. real library (native): only when a Go-source model was actually used
+	modelCmp := 0
+	usesModel := false
+	for st := range stubs {
+		if strings.HasPrefix(st, "model:") {
+			usesModel = true
+		}
+	}
+	if usesModel {
+		n, err := rep.validateModels(*tier == "thorough")
+		modelCmp = n
+		if err != nil {
+			inconcl = append(inconcl, err.Error())
+		}
+	}
+	// --- cross-checking the back end: sampled path transcripts re-decided by z3 5.x and cvc5
+	maxT := 60
+	if *tier == "thorough" {
+		maxT = 400
+	}
+	if len(transcripts) > maxT {
+		rng.Shuffle(len(transcripts), func(i, j int) { transcripts[i], transcripts[j] = transcripts[j], transcripts[i] })
+		transcripts = transcripts[:maxT]
+	}
+	cross := map[string]any{}
+	if len(transcripts) > 0 && os.Getenv("VERIF_NO_CROSS") == "" {
+		for _, alt := range []struct {
+			name, bin string
+			args      []string
+			prelude   string
+		}{{"z3-new", "z3-new", []string{"-in"}, ""}, {"cvc5", "cvc5", []string{"--incremental", "--lang=smt2"}, "(set-logic ALL)"}} {
+			n, d, err := crossSolve(alt.bin, alt.args, alt.prelude, transcripts)
+			cross[alt.name] = map[string]any{"queries_rechecked": n, "disagreements": d}
+			if err != nil {
+				inconcl = append(inconcl, "cross-solver "+alt.name+": "+err.Error())
+			} else if d > 0 {
+				inconcl = append(inconcl, fmt.Sprintf("cross-solver %s disagrees with z3 on %d of %d queries", alt.name, d, n))
+			}
+		}
+	}
 	if len(inconcl) > 0 && exit == 0 {
 		exit = 2
 	}
@@ -265,6 +307,9 @@ func cmdCheck(args []string) int {
 			"solver_time_s":                 round2(solverS),
 			"cover_labels":                  covers,
 			"native_replays":                replays,
+			"model_vs_library_comparisons":  modelCmp,
+			"cross_solver":                  cross,
+			"cross_solver_paths":            len(transcripts),
 			"stubs_and_models_used":         sl,
 			"assume_calls":                  assumes,
 			"inconclusive":                  inconcl,
